@@ -32,6 +32,13 @@ func c02Opts(r *core.Rng) gen.HOpts {
 	o := cb.hopts(r)
 	o.MaxCols, o.MaxRows, o.MaxStmts, o.MaxEvents, o.MaxTables = 3, 2, 2, 2, 2
 	o.NoJSON = true
+	// every second file flips the checksum setting while keeping the event layout
+	// (SET GLOBAL binlog_checksum=... followed by a rotation)
+	a := o.Cfgs[0]
+	flipped := *a
+	flipped.Checksum = !a.Checksum
+	flipped.ChecksumAlg = 0
+	o.Cfgs = []*ev.Cfg{a, &flipped, a, &flipped, a, &flipped, a, &flipped}
 	return o
 }
 
